@@ -491,8 +491,33 @@ impl<T> Matrix<T> {
     {
         let shape = shape.into().try_to_axis_shape(self.order)?;
         let size = Self::check_size(shape.size())?;
-        self.shape = shape;
-        self.data.resize_with(size, T::default);
+        if size <= self.size() {
+            self.shape = shape;
+            self.data.truncate(size);
+        } else {
+            // `T::default` may panic. Until the vector is completely filled the
+            // old shape stays in place, and on unwinding the guard truncates the
+            // vector back to the length that shape describes.
+            struct Guard<'a, T> {
+                data: &'a mut Vec<T>,
+                len: usize,
+            }
+
+            impl<T> Drop for Guard<'_, T> {
+                fn drop(&mut self) {
+                    self.data.truncate(self.len);
+                }
+            }
+
+            let len = self.data.len();
+            let guard = Guard {
+                data: &mut self.data,
+                len,
+            };
+            guard.data.resize_with(size, T::default);
+            std::mem::forget(guard);
+            self.shape = shape;
+        }
         Ok(self)
     }
 
